@@ -53,12 +53,17 @@ pub enum Body {
   Mio06,
   /// mio-0.8 consumer (PollEventSource), same producer
   Mio08,
+  /// as Mio06, but the participant has a second local reader on the same topic (sharing the topic cache),
+  /// which processes every datagram first
+  Mio06SecondReader,
   /// three async writes into a capacity-1 command queue vs process_writer_command
   AsyncWrite,
   /// async_wait_for_acknowledgments vs process_writer_command + ACKNACK
   AsyncWaitAck,
   /// async_wait_for_acknowledgments vs process_writer_command + reader lost
   AsyncWaitLost,
+  /// as AsyncWaitAck with a capacity-1 command queue: the wait command may find the queue full
+  AsyncWaitFullQueue,
 }
 
 #[derive(Debug, Clone, serde::Serialize)]
@@ -145,7 +150,7 @@ fn reader_body(body: Body, prefix: &[usize]) -> RunResult {
   let q = qos(true, 0, false);
   let (sub, topic) = sub_and_topic("c13_t", &q, true);
   let my_prefix = idle_participant().guid().prefix;
-  let reader_eid = reader_eid(7);
+  let reader_eid = if body == Body::Mio06SecondReader { reader_eid(8) } else { reader_eid(7) };
   let reader_guid = GUID::new_with_prefix_and_id(my_prefix, reader_eid);
   let topic_cache = Arc::new(Mutex::new(crate::structure::dds_cache::TopicCache::new(
     "c13_t".into(),
@@ -154,6 +159,12 @@ fn reader_body(body: Body, prefix: &[usize]) -> RunResult {
   )));
   let (ing, notification_rx, status_rx, command_tx, waker, event_source) =
     reader_ingredients(reader_guid, "c13_t", &q, topic_cache.clone());
+  // the other local reader of the same topic: same topic cache, its own channels (nobody consumes from it)
+  let other = if body == Body::Mio06SecondReader {
+    Some(reader_ingredients(GUID::new_with_prefix_and_id(my_prefix, super::common::reader_eid(7)), "c13_t", &q, topic_cache.clone()))
+  } else {
+    None
+  };
   let (disc_tx, _disc_rx) = mio_channel::sync_channel(64);
   let sdr = SimpleDataReader::<Msg, CDRDeserializerAdapter<Msg>>::new(
     sub, reader_eid, topic, q.clone(), notification_rx, topic_cache.clone(), disc_tx, status_rx, command_tx, waker, event_source,
@@ -222,12 +233,12 @@ fn reader_body(body: Body, prefix: &[usize]) -> RunResult {
         }
         drop(stream);
       }
-      Body::Mio06 | Body::Mio08 => {
+      Body::Mio06 | Body::Mio08 | Body::Mio06SecondReader => {
         let mut dr = DataReader::from_simple_data_reader(sdr);
         // "wait until readable": the guard performs a real zero-timeout poll on the real registered
         // source and latches a seen event (edge-triggered events must not be lost by merely asking)
         let pending = Arc::new(AtomicBool::new(false));
-        let guard: Arc<dyn Fn() -> bool + Send + Sync> = if body == Body::Mio06 {
+        let guard: Arc<dyn Fn() -> bool + Send + Sync> = if body != Body::Mio08 {
           let poll = mio_06::Poll::new().unwrap();
           poll.register(&dr, mio_06::Token(0), mio_06::Ready::readable(), mio_06::PollOpt::edge()).unwrap();
           let st = Mutex::new((poll, mio_06::Events::with_capacity(4)));
@@ -291,9 +302,19 @@ fn reader_body(body: Body, prefix: &[usize]) -> RunResult {
     reader.update_writer_proxy(RtpsWriterProxy::new(wg, vec![loc(9000)], vec![], EntityId::UNKNOWN), &q);
     let mut rk = mk_receiver(my_prefix);
     rk.mr.add_reader(reader);
-    let data = |sn: i64| wire::data_msg(&wire::cc_data(wg, sn, Msg::new(1, sn as u32, 0).cdr()), reader_eid, None);
+    let mut _other_keep = vec![];
+    if let Some((ing2, n2, s2, c2, _w2, e2)) = other {
+      let (ps_tx2, ps_rx2) = sync_status_channel(64).unwrap();
+      let mut r2 = Reader::new(ing2, udp(), mio_extras::timer::Builder::default().build(), ps_tx2);
+      r2.update_writer_proxy(RtpsWriterProxy::new(wg, vec![loc(9000)], vec![], EntityId::UNKNOWN), &q);
+      rk.mr.add_reader(r2);
+      _other_keep.push(Box::new((n2, s2, c2, e2, ps_rx2)) as Box<dyn std::any::Any>);
+    }
+    // addressed to every reader matched with the writer (reader id UNKNOWN) when there are two of them
+    let rid = if body == Body::Mio06SecondReader { EntityId::UNKNOWN } else { reader_eid };
+    let data = |sn: i64| wire::data_msg(&wire::cc_data(wg, sn, Msg::new(1, sn as u32, 0).cdr()), rid, None);
     let datagrams: Vec<Vec<u8>> = match body {
-      Body::Mio06 | Body::Mio08 => vec![data(1), data(3), wire::gap_msg(wg, reader_eid, 2, 3, &[])],
+      Body::Mio06 | Body::Mio08 | Body::Mio06SecondReader => vec![data(1), data(3), wire::gap_msg(wg, rid, 2, 3, &[])],
       _ => vec![data(1), data(2)],
     };
     for d in datagrams {
@@ -323,7 +344,7 @@ fn writer_body(body: Body, prefix: &[usize]) -> RunResult {
   let publisher = dp.create_publisher(&q).unwrap();
   let topic = dp.create_topic("c13w_t".into(), "Msg".into(), &q, crate::TopicKind::WithKey).unwrap();
   let wguid = super::sim_reader::wguid(0);
-  let queue = if body == Body::AsyncWrite { 1 } else { 4 };
+  let queue = if body == Body::AsyncWrite || body == Body::AsyncWaitFullQueue { 1 } else { 4 };
   let (cmd_tx, cmd_rx) = mio_channel::sync_channel::<WriterCommand>(queue);
   let waker_slot = Arc::new(Mutex::new(None));
   let (wstatus_tx, wstatus_rx) = sync_status_channel::<DataWriterStatus>(64).unwrap();
@@ -439,7 +460,7 @@ fn writer_body(body: Body, prefix: &[usize]) -> RunResult {
           // the wait is registered in the writer; now the decisive event arrives:
           // an ACKNACK acknowledging everything, or the loss of the reader
           sched::point("RX.before_ack");
-          if body == Body::AsyncWaitAck {
+          if body != Body::AsyncWaitLost {
             let an = wire::acknack_msg(rg, wguid, nwrites as i64 + 1, &[], 1, true);
             let mut rk = mk_receiver(wguid.prefix);
             rk.mr.handle_received_packet(&Bytes::from(an));
@@ -471,7 +492,7 @@ fn writer_body(body: Body, prefix: &[usize]) -> RunResult {
 
 pub fn run(body: Body, prefix: &[usize]) -> RunResult {
   match body {
-    Body::AsyncWrite | Body::AsyncWaitAck | Body::AsyncWaitLost => writer_body(body, prefix),
+    Body::AsyncWrite | Body::AsyncWaitAck | Body::AsyncWaitLost | Body::AsyncWaitFullQueue => writer_body(body, prefix),
     _ => reader_body(body, prefix),
   }
 }
